@@ -30,6 +30,7 @@ func c13Scenario(name string, prefix []string) *Scenario {
 		{Name: "whitelist(S1,+A)", Dt: ms, Txs: tx1(model.Msg{Kind: model.EntWhitelist, From: "S1", To: "A", N: 1})},
 		{Name: "whitelist(S1,-P1)", Dt: ms, Txs: tx1(model.Msg{Kind: model.EntWhitelist, From: "S1", To: "P1", N: 2})},
 		{Name: "gov(ent:signers=O;min=1)", Gov: &GovSpec{Kind: model.EntParams, Params: model.EntParamsRaw{Denom: mc.Nund, Signers: "O", Min: 1, Limit: 100}}},
+		{Name: "gov(ent:signers=O;min=1)+failing-msg", Gov: &GovSpec{Kind: model.EntParams, Params: model.EntParamsRaw{Denom: mc.Nund, Signers: "O", Min: 1, Limit: 100}, FailAfter: true}},
 		// registrations and records on the identifiers they are about to get, rolled back with their transaction
 		{Name: "rolled-back-registrations(O)", Dt: ms, Txs: func(m *model.State) []model.Tx {
 			return []model.Tx{{Msgs: []model.Msg{
@@ -139,13 +140,15 @@ func init() {
 		h0 := []string{}
 		h3 := []string{"raise(P1,7)", "whitelist(S1,+A)", "whitelist(S1,-P1)", "gov(ent:signers=O;min=1)", "create(A->R1,600nund@10)"}
 		h4 := []string{"rolled-back-registrations(O)", "wreg(W1,chain-a)", "breg(W1,beacon-a)", "raise(P1,7)"}
+		h5 := []string{"raise(P1,7)", "gov(ent:signers=O;min=1)+failing-msg", "wreg(W1,chain-a)", "breg(W1,beacon-a)", "create(A->R1,600nund@10)"}
 		opt := map[Tier]Options{
 			Quick:    {Depth: 1, Budget: 100 * time.Second, ReplayEvery: 16, FreshJobs: true},
 			Thorough: {Depth: 2, Budget: 25 * time.Minute, ReplayEvery: 64, MaxStates: 400000},
 		}
 		return &Check{ID: "C13",
 			Runs: []Run{{S: c13Scenario("entitlement-h1", h1), Opt: opt}, {S: c13Scenario("entitlement-h2", h2), Opt: opt}, {S: c13Scenario("entitlement-empty", h0), Opt: opt},
-				{S: c13Scenario("entitlement-moved", h3), Opt: opt}, {S: c13Scenario("entitlement-after-rollback", h4), Opt: opt}},
+				{S: c13Scenario("entitlement-moved", h3), Opt: opt}, {S: c13Scenario("entitlement-after-rollback", h4), Opt: opt},
+				{S: c13Scenario("entitlement-after-failed-handover", h5), Opt: opt}},
 			// a message takes effect only for its entitled signer: anything the model rejects for lack of entitlement must be rejected,
 			// a wrong key must never be accepted, and a rejected attempt leaves stores and balances untouched
 			Owns:        ownsAny("tx.accept_unexpected:", "tx.nonatomic", "bal:"),
